@@ -39,13 +39,65 @@ def check_set_result(chk, prog, fns):
                     return state | {"inserted"}
                 if re.search(r"_set_value$", cn):
                     return state | {"replaced"}
+            # constants held by locals (a single `result` variable returned at the end)
+            if x.get("k") == "assign" and x.get("op") == "=":
+                l = X.strip(x["ch"][0])
+                if l.get("k") == "ref" and l.get("rk") == "local":
+                    st2 = frozenset(t for t in state if not (isinstance(t, tuple) and t[0] == "val" and t[1] == l["d"]))
+                    cv = X.const_val(x["ch"][1])
+                    return st2 | ({("val", l["d"], cv)} if cv is not None else set())
+            if x.get("k") == "decl":
+                st2 = state
+                for dcl in x.get("decls", ()):
+                    st2 = frozenset(t for t in st2 if not (isinstance(t, tuple) and t[0] == "val" and t[1] == dcl["d"]))
+                    if dcl.get("init") is not None and X.const_val(dcl["init"]) is not None:
+                        st2 = st2 | {("val", dcl["d"], X.const_val(dcl["init"]))}
+                return st2
             return state
         rets = []
 
+        def join(a, b):
+            # reached-effects are may-facts (union); constants are must-facts (intersection)
+            eff = {t for t in a | b if not isinstance(t, tuple)}
+            vals = {t for t in a & b if isinstance(t, tuple)}
+            return frozenset(eff | vals)
+
         def vis(state, x, blk):
             if x.get("k") == "return" and x.get("val") is not None:
-                rets.append((x, X.const_val(x["val"]), state))
-        flow.forward(cfg, frozenset(), tr, join=lambda a, b: a | b, visit=vis)
+                cv = X.const_val(x["val"])
+                v = X.strip(x["val"])
+                if cv is None and v.get("k") == "ref":
+                    for t in state:
+                        if isinstance(t, tuple) and t[0] == "val" and t[1] == v.get("d"):
+                            cv = t[2]
+                rets.append((x, cv, state))
+        # path-sensitivity for the single-result idiom: one pass per effect, each pruned to the paths that reach it
+        flow.forward(cfg, frozenset(), tr, join=join, visit=vis)
+        if any(cv is None for _, cv, _ in rets):
+            # the returned local's value differs per path: evaluate per incoming edge of the return block
+            rets2 = []
+            ins = flow.forward(cfg, frozenset(), tr, join=join)
+            for x, cv, st in rets:
+                if cv is not None:
+                    rets2.append((x, cv, st))
+                    continue
+                blk = [b for b, bl in cfg.blocks.items() if x["i"] in bl.el][0]
+                v = X.strip(x["val"])
+                for pb in cfg.blocks[blk].pred:
+                    if pb not in ins:
+                        continue
+                    stp = ins[pb]
+                    for e in cfg.blocks[pb].el:
+                        nn_ = f.nodes.get(e)
+                        if nn_ is not None:
+                            stp = tr(stp, nn_, None)
+                    cvp = None
+                    for t in stp:
+                        if isinstance(t, tuple) and t[0] == "val" and t[1] == v.get("d"):
+                            cvp = t[2]
+                    if cvp is not None:
+                        rets2.append((x, cvp, stp))
+            rets = rets2
         seen = set()
         for x, cv, st in rets:
             if "inserted" in st or "replaced" in st:
@@ -67,17 +119,40 @@ def check_pair_comp(chk, prog):
         raise facts.AnalysisBroken("spif_objpair_comp not found")
     ispair = False
     bare = False
+
+    def forms(e, depth=0):
+        """the syntactic forms the expression can stand for, looking through locals and conditional expressions"""
+        s_ = X.strip(e)
+        if s_ is None or depth > 4:
+            return
+        if s_.get("k") == "cond":
+            for arm in (s_["ch"][1], s_["ch"][2]):
+                for r in forms(arm, depth + 1):
+                    yield r
+            return
+        if s_.get("k") == "ref" and s_.get("rk") == "local":
+            for y in walk(f.body):
+                if y.get("k") == "assign" and y.get("op") == "=" and X.strip(y["ch"][0]).get("d") == s_["d"]:
+                    for r in forms(y["ch"][1], depth + 1):
+                        yield r
+                if y.get("k") == "decl":
+                    for dcl in y.get("decls", ()):
+                        if dcl["d"] == s_["d"] and dcl.get("init") is not None:
+                            for r in forms(dcl["init"], depth + 1):
+                                yield r
+            return
+        yield s_
     for x in walk(f.body):
         if x.get("k") == "call":
             cn = X.callee_name(x) or X.dispatch_slot(x) or ""
             if "comp" in cn and x is not f.body:
                 args = x["ch"][1:]
                 if len(args) >= 2:
-                    a1 = X.strip(args[1])
-                    if a1.get("k") == "member" and a1.get("n") == "key":
-                        ispair = True
-                    if a1.get("k") == "ref" and a1.get("rk") == "param" and a1.get("pi") == 1:
-                        bare = True
+                    for a1 in forms(args[1]):
+                        if a1.get("k") == "member" and a1.get("n") == "key":
+                            ispair = True
+                        if a1.get("k") == "ref" and a1.get("rk") == "param" and a1.get("pi") == 1:
+                            bare = True
     chk.ob("K1", f.name, "pair-or-bare-key", ispair and bare, loc=f.loc(f.body),
            detail="spif_objpair_comp no longer compares against both a pair's key and a bare key: map lookups by key (which pass the "
                   "bare key) or pair ordering (sorted insert passes pairs) break", proof="both comparison forms present")
